@@ -27,7 +27,7 @@ ASSUMPTIONS = [
     "(far) the initial-water-content specification (Prop, last value FC) is documented to restart from the rounded adjusted field capacity and is not compared bitwise",
     "sound groundwater input: observation dates inside the window, the first one on the start date (the only shape the repository's examples use)",
 ]
-BUDGET = {"quick": 260, "thorough": 4500}
+BUDGET = {"quick": 380, "thorough": 4500}
 PROFILE = gen.profile(p_gw=0.72, gw_shallow=True, p_custom_soil=0.45, seasons=(1, 2), max_days=750, p_dz=0.3,
                       iwc=(("FC", 3), ("WP", 2), ("SAT", 1), ("Pct", 2), ("Num", 1), ("Depth", 2)))
 PROFILE_FAR = gen.profile(p_gw=0.0, p_custom_soil=0.3, seasons=(1, 2), max_days=600,
